@@ -776,6 +776,7 @@ func (p *Protocol) readLoop() {
 			p.pendingRecvSizes = append(p.pendingRecvSizes, msgLen)
 			p.pendingBytesMu.Unlock()
 		}
+		p.verifRecvAccounted(currentState, limit, msgLen)
 		// Add message to receive queue (blocking with shutdown checks)
 		select {
 		case p.recvQueueChan <- msg:
@@ -843,6 +844,7 @@ func (p *Protocol) recvLoop() {
 				}
 			}
 			p.pendingBytesMu.Unlock()
+			p.verifRecvReleased()
 		}
 	}
 }
@@ -935,6 +937,7 @@ func (p *Protocol) stateLoop(ch <-chan protocolStateTransition) {
 			return
 		case t := <-ch:
 			nextState, err := p.nextState(p.getCurrentState(), t.msg)
+			p.verifTransition(t.msg, nextState, err)
 			if err != nil {
 				t.errorChan <- fmt.Errorf(
 					"%s: error handling protocol state transition: %w",
@@ -1017,6 +1020,7 @@ func (p *Protocol) handleMessage(msg Message) error {
 		return fmt.Errorf("%s: error handling message: %w", p.config.Name, err)
 	}
 
+	p.verifHandler(msg)
 	// Call handler function
 	return p.config.MessageHandlerFunc(msg)
 }
